@@ -348,7 +348,7 @@ class Multi:
         o.cursor_hidden_expected = None
         if o.tracker:
             o.tracker.start_event()
-        o.begin_op("start", [("frame",)] if self.cfg["display"] == "progress" else [])
+        o.begin_op("start", [("frame",)], optional_frame=not (self.cfg["display"] == "progress"))
         try:
             with self.display:
                 if self.sim.me().tid not in o.pushed_by:
@@ -490,7 +490,7 @@ class Multi:
             if o.tracker:
                 o.tracker.start_event()
                 o.tracker.print_begin()
-            o.begin_op("start", [("frame",)] if self.cfg["display"] == "progress" else [])
+            o.begin_op("start", [("frame",)], optional_frame=not (self.cfg["display"] == "progress"))
             self.display.start()
             if self.sim.me().tid not in o.pushed_by:
                 o.stages = []  # it was already started: a no-op
